@@ -342,6 +342,7 @@ func (d *DataChannel) handleOpen(dc *datachannel.DataChannel, isRemote, isAlread
 		if err := dc.Close(); err != nil {
 			d.log.Errorf("Failed to close DataChannel that was closed during connecting state %v", err.Error())
 		}
+		d.setReadyState(DataChannelStateClosed)
 		d.onClose()
 
 		return
@@ -368,11 +369,16 @@ func (d *DataChannel) handleOpen(dc *datachannel.DataChannel, isRemote, isAlread
 	}
 
 	d.mu.Lock()
-	defer d.mu.Unlock()
-
 	if d.isGracefulClosed {
+		// The channel was closed while it was being opened: Close has closed (or
+		// is about to close) the transport, and no read loop will report it.
+		d.mu.Unlock()
+		d.setReadyState(DataChannelStateClosed)
+		d.onClose()
+
 		return
 	}
+	defer d.mu.Unlock()
 
 	if !d.api.settingEngine.detach.DataChannels {
 		d.readLoopActive = make(chan struct{})
